@@ -343,3 +343,35 @@ def in_body(n: ast.AST, holder: ast.AST, fieldname: str = "body") -> bool:
     if cur is None:
         return False
     return any(cur is s for s in getattr(holder, fieldname, []))
+
+
+def write_once_fields(P: Program, rel: str, cls: str, selfname: str = "self") -> Dict[str, ast.expr]:
+    """A4: fields of `cls` whose only stores in the whole package are single plain assignments in __init__.
+    Returns {'self.<field>': defining expression} (in terms of the constructor's parameters and other fields)."""
+    c = P.cls(rel, cls)
+    init = c.methods.get("__init__")
+    if init is None:
+        return {}
+    cand: Dict[str, List[ast.expr]] = {}
+    for n in own_nodes(init.node):
+        if isinstance(n, (ast.Assign, ast.AnnAssign)):
+            tg = n.targets if isinstance(n, ast.Assign) else [n.target]
+            if len(tg) == 1 and isinstance(tg[0], ast.Attribute) and norm.is_name(tg[0].value, selfname) and n.value is not None:
+                cand.setdefault(tg[0].attr, []).append(n.value)
+    out = {}
+    for attr, vals in cand.items():
+        if len(vals) != 1:
+            continue
+        ws = []
+        for w in attr_writes(P, attr):
+            if w.fn.node is init.node:
+                continue
+            recv = w.target.value if isinstance(w.target, ast.Attribute) else None
+            if isinstance(recv, ast.Name) and recv.id == selfname and w.fn.cls and w.fn.cls != cls:
+                continue  # another class's own field of the same name
+            # same class outside __init__, or a receiver of unknown type: counts as a writer (conservative)
+            ws.append(w)
+        if ws:
+            continue
+        out[f"{selfname}.{attr}"] = vals[0]
+    return out
